@@ -68,12 +68,40 @@ def check_com(case, ctx):
     if not (abs(got[0] - ex) <= tol and abs(got[1] - ey) <= tol):
         raise Violation('com_value', f'centroid_com {got} vs direct '
                         f'({ex}, {ey})')
+    # documented for any dimensionality ((x, y, z, ...) order): a 1-D row and
+    # a 3-D stack of this image
+    nz = case.get('nz', 0)
+    if nz:
+        cube = np.stack([d * (k + 1.0) for k in range(nz)])
+        cmask = None if mask is None else np.stack([mask] * nz)
+        wz = np.stack([w * (k + 1.0) for k in range(nz)])
+        with warnings.catch_warnings():
+            warnings.simplefilter('ignore')
+            g3 = centroid_com(cube.copy(), mask=cmask)
+        ez = float((np.arange(nz)[:, None, None] * wz).sum() / wz.sum())
+        ctx.event('com_3d')
+        if not (len(g3) == 3 and abs(g3[0] - ex) <= tol and abs(g3[1] - ey) <= tol
+                and abs(g3[2] - ez) <= tol):
+            raise Violation('com_value', f'centroid_com on a {nz}-plane cube: '
+                            f'{g3} vs direct ({ex}, {ey}, {ez})')
+        row = d[0].copy()
+        rgood = np.isfinite(row)
+        if rgood.all() and abs(row.sum()) > 1e-9 * np.abs(row).sum():
+            with warnings.catch_warnings():
+                warnings.simplefilter('ignore')
+                g1 = centroid_com(row)
+            e1 = float((np.arange(nx) * row).sum() / row.sum())
+            if not (len(g1) == 1 and abs(g1[0] - e1)
+                    <= 1e-11 * np.abs(row).sum() / abs(row.sum()) * nx):
+                raise Violation('com_value', f'centroid_com on a 1-D array: '
+                                f'{g1} vs {e1}')
 
 
 @st.composite
 def com_cases(draw):
     return {'shape': [draw(st.integers(2, 20)), draw(st.integers(2, 20))],
             'seed': draw(st.integers(0, 10**6)), 'signed': draw(st.booleans()),
+            'nz': draw(st.sampled_from([0, 0, 2, 3])),
             'mask_density': draw(st.sampled_from([0.0, 0.1, 0.4])),
             'special': [[draw(st.integers(0, 30)), draw(st.integers(0, 30)),
                          draw(st.sampled_from([float('nan'), float('inf')]))]
@@ -127,9 +155,18 @@ def check_quadratic_exact(case, ctx):
         return
     if (i - hx < 0 or i + hx >= nx or j - hy < 0 or j + hy >= ny):
         ctx.event('window_shifted_at_edge')
+    zin = z.copy()
+    if case.get('nonfinite') and not kw:
+        # unmasked non-finite pixels outside the fit window are documented to
+        # be masked automatically (+inf would otherwise be the "peak")
+        out = np.argwhere(~win & ~(mask if mask is not None else np.zeros_like(win)))
+        if len(out):
+            oy, ox = out[case['nonfinite'][1] % len(out)]
+            zin[oy, ox] = [np.inf, -np.inf, np.nan][case['nonfinite'][0] % 3]
+            ctx.event('unmasked_nonfinite_outside_window')
     with warnings.catch_warnings():
         warnings.simplefilter('ignore')
-        got = centroid_quadratic(z.copy(), fit_boxsize=tuple(fb), mask=mask, **kw)
+        got = centroid_quadratic(zin, fit_boxsize=tuple(fb), mask=mask, **kw)
     ctx.mark(mask is not None or bool(kw) or fb[0] != fb[1])
     inside = -0.5 <= vx <= nx - 0.5 and -0.5 <= vy <= ny - 0.5
     if not inside:
@@ -155,7 +192,9 @@ def quadratic_cases(draw):
                                          min_size=0, max_size=3)),
             'give_peak': draw(st.booleans()),
             'peak_off': [draw(st.sampled_from([-1, 0, 1])), draw(st.sampled_from([-1, 0, 1]))],
-            'search_boxsize': draw(st.sampled_from([None, 3, 5]))}
+            'search_boxsize': draw(st.sampled_from([None, 3, 5])),
+            'nonfinite': draw(st.one_of(st.none(), st.tuples(
+                st.integers(0, 2), st.integers(0, 300)).map(list)))}
 
 
 # --------------------------------------------------------------------------
